@@ -167,7 +167,41 @@ func observeCustom(q, spec string) []string {
 		s, err := b.Render(e)
 		return "x" + hx(s) + errflag(err)
 	})
-	return []string{showExpr(e), res, strings.Join(trace, " ")}
+	return []string{showExpr(e), res, strings.Join(trace, " "), driverIsolation()}
+}
+
+// two drivers must not share state: editing one postgres driver's function table (registering a function for FUZZY,
+// removing the one for MUST) must change neither another postgres driver, nor the package-level one behind ToPostgres,
+// nor driver.Shared. Whatever the outcome, the edit is undone so that later cases start from the same state.
+func driverIsolation() string {
+	return guard(func() string {
+		d := driver.NewPostgresDriver()
+		savedMust, hadMust := d.RenderFNs[expr.Must]
+		_, hadFuzzy := d.RenderFNs[expr.Fuzzy]
+		d.RenderFNs[expr.Fuzzy] = func(l, r string) (string, error) { return "similar(" + l + ")", nil }
+		delete(d.RenderFNs, expr.Must)
+		res := "ok"
+		if _, found := driver.Shared[expr.Fuzzy]; found {
+			res = "LEAK:driver.Shared-sees-the-edit"
+		}
+		if _, err := lucene.ToPostgres("a:b~"); err == nil {
+			res = "LEAK:ToPostgres-renders-fuzzy-after-another-driver-was-edited"
+		}
+		if _, err := lucene.ToPostgres("+a:b"); err != nil {
+			res = "LEAK:ToPostgres-lost-MUST-after-another-driver-was-edited"
+		}
+		other := driver.NewPostgresDriver()
+		if _, found := other.RenderFNs[expr.Fuzzy]; found {
+			res = "LEAK:a-new-postgres-driver-sees-the-edit"
+		}
+		if !hadFuzzy {
+			delete(d.RenderFNs, expr.Fuzzy)
+		}
+		if hadMust {
+			d.RenderFNs[expr.Must] = savedMust
+		}
+		return res
+	})
 }
 
 func parseSpec(spec string) (rm, ov map[int]bool) {
